@@ -23,11 +23,11 @@ def forN {σ : Type _} : Nat → (Nat → σ → σ) → σ → σ
 /-- in-place store `y[t] = v` -/
 def upd {K : Type _} (y : Nat → K) (t : Nat) (v : K) : Nat → K := fun k => if k = t then v else y k
 
-/-- a dense matrix: shape and entry function (`at i j` is `(*this)[i][j]`) -/
+/-- a dense matrix: shape and entry function (`e i j` is `(*this)[i][j]`) -/
 structure Mat (K : Type _) where
   rows : Nat
   cols : Nat
-  at : Nat → Nat → K
+  e : Nat → Nat → K
 
 /-- the eleven matrix-vector kernels of the dune-common matrix interface -/
 inductive KName where
